@@ -121,32 +121,32 @@ type Replay struct {
 
 // Stats is what one worker reports.
 type Stats struct {
-	Property    string            `json:"property"`
-	Worker      int               `json:"worker"`
-	Seed        uint64            `json:"seed"`
-	Runs        int               `json:"runs"`
-	ShrinkRuns  int               `json:"shrink_runs"`
-	Nontrivial  int               `json:"nontrivial_runs"`
-	Steps       int               `json:"steps"`
-	Switches    int               `json:"switches"`
-	Advances    int               `json:"advances"`
-	SimSeconds  float64           `json:"simulated_seconds"`
-	WallS       float64           `json:"wall_s"`
-	Faults      map[string]int    `json:"faults_fired"`
-	Configured  map[string]int    `json:"faults_configured"`
-	Probes      map[string]int    `json:"probes"`
-	Pairs       map[string]int    `json:"switch_pairs"`
-	Populations map[string]int    `json:"populations"`
-	KnownHits   map[string]int    `json:"known_hits"`
-	KnownReplay map[string]string `json:"known_replay"`
-	Violation   *Replay           `json:"violation,omitempty"`
-	ReplayPath  string            `json:"replay_path,omitempty"`
-	HarnessErrs []string          `json:"harness_errors,omitempty"`
-	Samples     []interface{}     `json:"samples"`
-	BatchSeeds  []uint64          `json:"batch_seeds"`
-	Leaked      uint64            `json:"leaked_bubbles"`
-	Inconclusive int              `json:"inconclusive"`
-	Extra       map[string]int    `json:"extra,omitempty"`
+	Property     string            `json:"property"`
+	Worker       int               `json:"worker"`
+	Seed         uint64            `json:"seed"`
+	Runs         int               `json:"runs"`
+	ShrinkRuns   int               `json:"shrink_runs"`
+	Nontrivial   int               `json:"nontrivial_runs"`
+	Steps        int               `json:"steps"`
+	Switches     int               `json:"switches"`
+	Advances     int               `json:"advances"`
+	SimSeconds   float64           `json:"simulated_seconds"`
+	WallS        float64           `json:"wall_s"`
+	Faults       map[string]int    `json:"faults_fired"`
+	Configured   map[string]int    `json:"faults_configured"`
+	Probes       map[string]int    `json:"probes"`
+	Pairs        map[string]int    `json:"switch_pairs"`
+	Populations  map[string]int    `json:"populations"`
+	KnownHits    map[string]int    `json:"known_hits"`
+	KnownReplay  map[string]string `json:"known_replay"`
+	Violation    *Replay           `json:"violation,omitempty"`
+	ReplayPath   string            `json:"replay_path,omitempty"`
+	HarnessErrs  []string          `json:"harness_errors,omitempty"`
+	Samples      []interface{}     `json:"samples"`
+	BatchSeeds   []uint64          `json:"batch_seeds"`
+	Leaked       uint64            `json:"leaked_bubbles"`
+	Inconclusive int               `json:"inconclusive"`
+	Extra        map[string]int    `json:"extra,omitempty"`
 }
 
 // Env is the worker configuration from the environment.
@@ -212,20 +212,23 @@ type shimTB struct {
 	msgs   []string
 }
 
-func (s *shimTB) Helper()                           {}
-func (s *shimTB) Name() string                      { return s.name }
-func (s *shimTB) Logf(format string, a ...any)      {}
-func (s *shimTB) Log(a ...any)                      {}
-func (s *shimTB) Skipf(format string, a ...any)     {}
-func (s *shimTB) Skip(a ...any)                     {}
-func (s *shimTB) SkipNow()                          {}
-func (s *shimTB) Errorf(format string, a ...any)    { s.failed = true; s.msgs = append(s.msgs, fmt.Sprintf(format, a...)) }
-func (s *shimTB) Error(a ...any)                    { s.failed = true; s.msgs = append(s.msgs, fmt.Sprint(a...)) }
-func (s *shimTB) Fatalf(format string, a ...any)    { s.Errorf(format, a...) }
-func (s *shimTB) Fatal(a ...any)                    { s.Error(a...) }
-func (s *shimTB) FailNow()                          { s.failed = true }
-func (s *shimTB) Fail()                             { s.failed = true }
-func (s *shimTB) Failed() bool                      { return s.failed }
+func (s *shimTB) Helper()                       {}
+func (s *shimTB) Name() string                  { return s.name }
+func (s *shimTB) Logf(format string, a ...any)  {}
+func (s *shimTB) Log(a ...any)                  {}
+func (s *shimTB) Skipf(format string, a ...any) {}
+func (s *shimTB) Skip(a ...any)                 {}
+func (s *shimTB) SkipNow()                      {}
+func (s *shimTB) Errorf(format string, a ...any) {
+	s.failed = true
+	s.msgs = append(s.msgs, fmt.Sprintf(format, a...))
+}
+func (s *shimTB) Error(a ...any)                 { s.failed = true; s.msgs = append(s.msgs, fmt.Sprint(a...)) }
+func (s *shimTB) Fatalf(format string, a ...any) { s.Errorf(format, a...) }
+func (s *shimTB) Fatal(a ...any)                 { s.Error(a...) }
+func (s *shimTB) FailNow()                       { s.failed = true }
+func (s *shimTB) Fail()                          { s.failed = true }
+func (s *shimTB) Failed() bool                   { return s.failed }
 
 // Check describes one property check to the exploration loop.
 type Check[S any] struct {
